@@ -125,6 +125,7 @@ def stepS (pol : Policy) (s : S) : Op → Res (Resp × S)
     | .ok (r, s1) => .ok (.nat (min n r), s1)
   | .capBegin => .error (.panic "capture is not modelled in the stream layer")
   | .capEnd => .error (.panic "capture is not modelled in the stream layer")
+  | .getPos => .ok (.nat s.data.length, s)
 
 def runS (pol : Policy) : Prog α → S → Res (α × S)
   | .ret a, s => .ok (a, s)
